@@ -397,3 +397,27 @@ Proof.
     destruct (H Er) as [_ Ht]. rewrite (Hz Ht). lia.
   - inversion Es; subst. discriminate.
 Qed.
+
+(* the node's own row of the connection picture (what it knows first-hand about its own links) is never
+   changed by a received update, whatever the update says *)
+Theorem own_row_untouched st u recv :
+  aget (ns_self st) (ns_known (fst (handle_update st u recv))) = aget (ns_self st) (ns_known st).
+Proof.
+  unfold handle_update.
+  destruct (u_origin u =? 0); [reflexivity|].
+  destruct (negb (conns_pos (u_conns u))); [reflexivity|].
+  destruct (u_origin u =? ns_self st) eqn:Es.
+  { destruct (u_epoch u =? ns_epoch st); [reflexivity|].
+    destruct (u_susp u =? ns_epoch st); [reflexivity|].
+    destruct (ns_epoch st <? u_epoch u); reflexivity. }
+  destruct (mem_N (u_id u) (ns_seen st)); [reflexivity|].
+  destruct (negb (u_susp u =? 0)); [reflexivity|].
+  destruct (match aget (u_origin u) (ns_info st) with Some p => lex_le (u_epoch u, u_seq u) p | None => false end);
+    [reflexivity|].
+  cbn [fst ns_known set_state].
+  destruct (negb (conns_equal (u_conns u) (aget (u_origin u) (ns_known st)))); [|reflexivity].
+  rewrite aget_prune. apply N.eqb_neq in Es.
+  rewrite aget_aset_other by (intro E; apply Es; symmetry; exact E).
+  destruct (aget (ns_self st) (ns_known st)); [|reflexivity].
+  now rewrite N.eqb_refl.
+Qed.
